@@ -16,7 +16,7 @@ CONSTANTS MaxLen
 
 A == <<"a", "\"", "\\", "n", "\n", "\t", "¬", "ʞ", "{", "}", " ", ";">>
 NA == Len(A)
-Seeds == <<"{\"", "{\"}", "{\"a\":1}", "{\"¬}", "{\"a\\n\":\"¬¬\"}", "{\"\n}", "¬", "¬¬", "\\\\n", "\\n", "{\"}\n", "a{\"}">>
+Seeds == <<"�", "a�b", "", " ", "﻿z", " x", "é", "😀", "{\"", "{\"}", "{\"a\":1}", "{\"¬}", "{\"a\\n\":\"¬¬\"}", "{\"\n}", "¬", "¬¬", "\\\\n", "\\n", "{\"}\n", "a{\"}">>
 
 Others == <<":a", ":a-b", ":a1", ":+", ":", "a", "a-b", "a1", "+", "->", "*x*", "nil?", "-", "-a", "<=", "&", "0", "1", "-1",
             \* symbols that differ from nil / true / false by letter case only
